@@ -502,6 +502,8 @@ class Gen(object):
                         return None     # cannot satisfy a reference parameter here
                 if kind == 'text' and default is not None and r.random() < 0.5:
                     continue            # defaulted
+                if kind == 'text' and default is not None and r.random() < 0.3:
+                    v = [L('')]         # an explicitly supplied EMPTY argument must still override the default
                 args.append((pn, v))
             r.shuffle(args)
             execs.append((s, args))
@@ -844,6 +846,18 @@ def run(ctx):
         cases.append((m[1] + ':mutant', m[0]))
         made += 1
     _explore(ctx, cases)
+    # F6d (fixed): sibling component steps that reference each other (a dataflow cycle, outside the generator's
+    # domain: it is the graph validation that rejects it) must not make the compiler hang
+    cyc = {'entrypoint': {'entry-instance': 'main', 'execute': [{'target': '<entry-instance>', 'args': {}}]},
+           'workflows': [{'signature': {'name': 'main', 'parameters': []}, 'steps': {'a': 'cc', 'b': 'cc'},
+                          'execute': [{'target': '<a>', 'args': {'p': '<b>:ref'}}, {'target': '<b>', 'args': {'p': '<a>:ref'}}]}],
+           'components': [{'signature': {'name': 'cc', 'parameters': [{'name': 'p'}]},
+                           'command': {'executable': 'echo', 'arguments': 'cat %(p)s'}}]}
+    r = drive(cyc)
+    ctx.case(['F6d', cyc], True)
+    if r.get('kind') == 'exc':
+        ctx.fail({'label': 'corpus:F6d_sibling_cycle', 'doc': cyc, 'got': r},
+                 'the compiler neither compiles nor reports a DSLInvalidError for sibling steps that reference each other (%s)' % r.get('type'), [])
 
 
 def replay(ctx, path):
